@@ -183,6 +183,7 @@ static void GenRandomCase(Gen& g, int len)
 	g.Header((int)r.below(2), kDurs[r.below(7)], kDurs[r.below(7)], kDurs[r.below(7)]);
 	bool conn[3] = { false, false, false };
 	bool running = true, dropped = false;
+	long long rp[3] = { 0, 0, 0 };      /* the remote position each peer's accepted messages imply (pure bookkeeping of what was sent) */
 	auto sec = [&]() { const char *x = kSecs[r.below(6)]; return (dropped && x[0] == 'x') ? "s" : x; };
 	for (int i = 0; i < len; i++) {
 		g.Tick();
@@ -201,8 +202,14 @@ static void GenRandomCase(Gen& g, int len)
 			if (r.below(4) == 0) v = (v / 1000000) * 1000000;
 			g.Emit(std::string("ack ") + kPeers[r.below(3)] + " " + std::to_string(v));
 		}
-		else if (k < 89) { long long v = g.now - (long long)r.below(5000000) + (long long)r.below(2000000);
-			g.Emit(std::string("recv ") + kPeers[r.below(3)] + " " + std::to_string(v)); }
+		else if (k < 89) {
+			int p = (int)r.below(3);
+			long long v = g.now - (long long)r.below(5000000) + (long long)r.below(2000000);
+			/* mostly AT the recorded position and 1 µs around it: equal is not older */
+			if (rp[p] > 0 && r.below(3) != 0) v = rp[p] + (long long)r.below(3) - 1;
+			g.Emit(std::string("recv ") + kPeers[p] + " " + std::to_string(v));
+			if (v >= rp[p]) rp[p] = v;
+		}
 		else if (k < 91) { g.Emit("stop " + g.Now()); g.Emit("ls"); running = false; }
 		else if (k < 94) { g.Emit(r.below(2) ? "crash -1" : "crash " + std::to_string(r.below(600))); g.Emit("ls"); running = false; }
 		else if (k < 95) { g.Emit("drop"); dropped = true; }
@@ -275,12 +282,33 @@ static void GenNullRecordCase(Gen& g)
 	g.Emit("replay " + g.Now() + " A");
 }
 
+/* the receiver's filter exactly at its recorded position, also across a restart */
+static void GenReceiverEdgeCase(Gen& g, const char *peer)
+{
+	g.Header(0, 86400, 86400, 86400);
+	long long t = g.now + 5000000;
+	std::string p = peer;
+	for (long long v : { t, t, t - 1, t + 1, t + 1, t, t + 2 }) g.Emit("recv " + p + " " + std::to_string(v));
+	g.now += 9000000;
+	g.Emit("crash -1");
+	g.Emit("start " + g.Now());
+	for (long long v : { t + 2, t + 1, t + 2, t + 3 }) g.Emit("recv " + p + " " + std::to_string(v));
+	g.Tick();
+	g.Emit("stop " + g.Now());
+	g.Tick();
+	g.Emit("start " + g.Now());
+	for (long long v : { t + 3, t + 2, t + 4 }) g.Emit("recv " + p + " " + std::to_string(v));
+}
+
 static void GenAll(uint64_t seed, bool thorough, std::vector<std::string>& out)
 {
 	Rng rng(seed * 0x9e3779b97f4a7c15ULL + 12);
 	Gen g{ rng, out };
 	GenEqualStampCase(g);
 	GenNullRecordCase(g);
+	GenReceiverEdgeCase(g, "A");
+	GenReceiverEdgeCase(g, "B");
+	GenReceiverEdgeCase(g, "C");
 	GenCutCase(g, 3, "A");
 	GenCutCase(g, 2, "B");
 	if (thorough) { GenCutCase(g, 4, "A"); GenCutCase(g, 3, "B"); GenCutCase(g, 1, "C"); }
@@ -947,8 +975,10 @@ static int PartMain(const char *self, const std::string& file, const std::string
 static int RunParts(const char *self, const std::vector<std::vector<std::string>>& parts, const std::string& work)
 {
 	MkDirs(work);
-	InitIcinga();
-	SetupPki(work);
+	if (!fs::exists(work + "/pki/done")) {      /* once per work directory; every later invocation skips the set-up */
+		InitIcinga();
+		SetupPki(work);
+	}
 	std::string run = work + "/run-" + std::to_string(getpid());
 	MkDirs(run);
 	size_t maxPar = 8;
